@@ -4,7 +4,9 @@
      side_value = None      (KeyError / a None reaching a comparison)   <- no_keyerror
      Escaped from contains  (an exception out of Specifier.contains)     <- SpecLink.compare_op_total
      a bad BoolOp           (assert marker in ["and", "or"])             <- marker_is_formula (the parser only builds and/or)
-     effective_env = None   (KeyError / AttributeError in the repair)    <- detects_all / typed *)
+     effective_env = None   (KeyError / AttributeError in the repair)    <- detects_all / typed
+   The model has no digit limit (finding D10) and no recursion limit (finding D44): on the real code an operand with more than 4300
+   digits in a row is answered by the string operator instead, and a marker nested ~490 deep raises RecursionError. *)
 From Coq Require Import List Arith NArith Bool Lia.
 Import ListNotations.
 Require Import MText MRound MkModel MkEval MkEvalP MkGroupsP MkFmtP MkShapeP MkRoundP MkTreeP.
